@@ -38,7 +38,9 @@ def compare_step(st, real, model):
         diffs.append(('value' if t == 'call' else 'hash', real['r'], model['r']))
     if t == 'call' and real['sig'] != model['sig']:
         diffs.append(('sig', real['sig'], model['sig']))
-    if log_key(real['log']) != log_key(model['log']):
+    # two-phase form (get_hash, then get_value): the hash of the output is always computed, so by-value functions upstream of a
+    # cache hit run although a plain call would not need them; the log is judged by the oracle (once, only needed), not the model
+    if not st.get('two_phase') and log_key(real['log']) != log_key(model['log']):
         diffs.append(('log', real['log'], model['log']))
     if t == 'call' and 'sizes' in real and real['sizes'] != model.get('sizes'):
         diffs.append(('sizes', real['sizes'], model.get('sizes')))
